@@ -37,6 +37,9 @@ pub type Result<T> = core::result::Result<T, SvgdxError>;
 //@item src/position.rs :: enum ScalarSpec
 //@ keep-derive Clone Copy
 //@end
+//@item src/position.rs :: struct Size
+//@ keep-derive Clone Copy
+//@end
 //@item src/element.rs :: struct SvgElement
 //@end
 
@@ -87,6 +90,12 @@ pub open spec fn first_wins(o: M, k: Seq<char>, v: Seq<char>) -> Seq<char> { if 
 
 #[verifier::external_body]
 pub fn fstr(x: R32) -> (r: String) ensures r@ == fstr_spec(val(x)) { unimplemented!() }
+/// `opt.map(|n| strp(n)).transpose()`
+#[verifier::external_body]
+pub fn opt_strp_ref(o: Option<&String>) -> (r: Result<Option<R32>>)
+    ensures (match o { None => r is Ok && r->Ok_0 is None,
+                      Some(s) => (match strp_spec(s@) { Some(x) => r is Ok && r->Ok_0 is Some && val(r->Ok_0->Some_0) == x, None => r is Err }) })
+{ unimplemented!() }
 #[verifier::external_body]
 pub fn strp(s: &str) -> (r: Result<R32>) ensures (match strp_spec(s@) { Some(x) => r is Ok && val(r->Ok_0) == x, None => r is Err }) { unimplemented!() }
 /// R-abstract (resolve_size_delta): the Option-combinator expression computing the basis
@@ -206,6 +215,8 @@ impl BoundingBox {
     pub fn locspec(&self, ls: LocSpec) -> (r: (R32, R32)) ensures (val(r.0), val(r.1)) == loc_point(*self, ls) { unimplemented!() }
     #[verifier::external_body]
     pub fn scalarspec(&self, ss: ScalarSpec) -> (r: R32) ensures val(r) == scalar_of(*self, ss) { unimplemented!() }
+    #[verifier::external_body] pub fn width(&self) -> (r: R32) ensures val(r) == val(self.x2) - val(self.x1) { unimplemented!() }
+    #[verifier::external_body] pub fn height(&self) -> (r: R32) ensures val(r) == val(self.y2) - val(self.y1) { unimplemented!() }
 }
 /// opaque pieces of resolve_position
 #[verifier::external_body]
@@ -276,6 +287,31 @@ impl SvgElement {
 //@           let p = loc_point(*bbox, loc->Some_0); let d = dxdy_parse(split_rest(remain@))->Some_0;
 //@           r->Ok_0@ == fstr_spec(if is_x_scalar(attr_ss) { p.0 + d.0 } else if is_y_scalar(attr_ss) { p.1 + d.1 } else { scalar_of(*bbox, attr_ss) }) }) })     @@C09.loc.value
 //@ - strip_sep(split_head(remain@), '~') is None && strip_sep(split_head(remain@), '@') is None && split_head(remain@).len() > 0 ==> r is Err     @@C09.loc.junk_rejected
+//@end
+
+    // ---- the element's own size (what direction placement centres and steps back by)
+    #[verifier::external_body]
+    pub fn get_target_element(&self, ctx: &Ctx) -> (r: Result<SvgElement>) { unimplemented!() }
+    /// recursive call of size() on the target of a use / reuse (opaque: the target is another element)
+    #[verifier::external_body]
+    pub fn target_size(&self, ctx: &Ctx) -> (r: Result<Option<Size>>) { unimplemented!() }
+//@item src/element.rs :: impl SvgElement :: fn size
+//@ strlit "use" "reuse" "g" "symbol" "point" "text" "circle" "ellipse" "line"
+//@ replace[R-opaque-type] <<<ctx: &impl ElementMap>>> => <<<ctx: &Ctx>>>
+//@ replace[R-recursion] <<<target_el.size(ctx)?>>> => <<<target_el.target_size(ctx)?>>>
+//@ replace-re[R-optmap] <<<self\.attrs\.get\("(\w+)"\)\.map\(\|n\| strp\(n\)\)\.transpose\(\)\?>>> => <<<opt_strp_ref(self.attrs.get("\1"))?>>>
+//@ ensures
+//@ - self.name@ == "circle"@ && r is Ok ==> (match num(self.attrs@, "r"@) { Some(rr) => r->Ok_0 is Some && val(r->Ok_0->Some_0.0) == rr * 2real && val(r->Ok_0->Some_0.1) == rr * 2real,
+//@       None => (r->Ok_0 is Some) == (self.attrs@.dom().contains("width"@) && self.attrs@.dom().contains("height"@)) })     @@C09.size.circle
+//@ - self.name@ == "ellipse"@ && r is Ok && num(self.attrs@, "rx"@) is Some && num(self.attrs@, "ry"@) is Some ==>
+//@       r->Ok_0 is Some && val(r->Ok_0->Some_0.0) == num(self.attrs@, "rx"@)->Some_0 * 2real && val(r->Ok_0->Some_0.1) == num(self.attrs@, "ry"@)->Some_0 * 2real     @@C09.size.ellipse
+//@ - (self.name@ == "point"@ || self.name@ == "text"@) && r is Ok ==> r->Ok_0 is Some && val(r->Ok_0->Some_0.0) == 0real && val(r->Ok_0->Some_0.1) == 0real     @@C09.size.point
+//@ - (self.name@ == "rect"@ || self.name@ == "image"@ || self.name@ == ""@) && r is Ok ==> (match (num(self.attrs@, "width"@), num(self.attrs@, "height"@)) {
+//@       (Some(w), Some(h)) => r->Ok_0 is Some && val(r->Ok_0->Some_0.0) == w && val(r->Ok_0->Some_0.1) == h, _ => r->Ok_0 is None })     @@C09.size.rect
+//@ - self.name@ == "line"@ && r is Ok && num(self.attrs@, "x1"@) is Some && num(self.attrs@, "x2"@) is Some && num(self.attrs@, "y1"@) is Some && num(self.attrs@, "y2"@) is Some ==>
+//@       r->Ok_0 is Some && val(r->Ok_0->Some_0.0) == rabs_(num(self.attrs@, "x2"@)->Some_0 - num(self.attrs@, "x1"@)->Some_0)
+//@       && val(r->Ok_0->Some_0.1) == rabs_(num(self.attrs@, "y2"@)->Some_0 - num(self.attrs@, "y1"@)->Some_0)     @@C09.size.line
+//@ - self.attrs@.dom().contains("width"@) && strp_spec(self.attrs@["width"@]) is None ==> r is Err     @@C09.size.unresolved_is_error
 //@end
 
     // ---- element-relative attribute values: the reference must be resolvable NOW or the element must fail (and be retried)
